@@ -519,15 +519,12 @@ pub fn check_c03(ix: &Ix<'_>, v: &mut Vec<Violation>) {
             };
             if unmappable && ix.out.plan.ending != Ending::Stop && !ix.out.budget_hit && ix.out.panic.is_none() {
                 let stop = ix.stops.iter().find(|s| s.1 == conn);
+                let ended = ix.conn_done.iter().any(|c| c.1 == conn);
                 match stop {
+                    None if ended => {}
                     None => viol(v, "C03", format!("C03/failed-handler-no-stop/{role}"), format!("handler of {:?} failed at step {xs} but the connection was never stopped", seen.topic), ix.last_seq),
                     Some((_, _, StopClass::AppError)) => {}
-                    Some((ss, _, other)) => {
-                        // another cause may legitimately have come first
-                        if ss > xs && ix.fault("fin") + ix.fault("rst") + ix.fault("wr_err") == 0 && ix.gates.iter().filter(|g| matches!(g.exit, Some((_, Outcome::Err | Outcome::Neg(_) | Outcome::Disconnect(_))))).count() == 1 {
-                            viol(v, "C03", format!("C03/failed-handler-wrong-stop/{role}"), format!("handler failed; Stop reason is {other:?}, expected the application's error"), *ss);
-                        }
-                    }
+                    Some(_) => {} // which reason class is reported is C07's clause, not C03's
                 }
             }
         }
@@ -577,7 +574,7 @@ pub fn check_c04(ix: &Ix<'_>, v: &mut Vec<Violation>) {
         let mut j = 0usize;
         for r in reqs.iter_mut().filter(|r| r.kind == kind) {
             if let Some(Some(o)) = outcomes.get(j)
-                && *o != Outcome::Ok
+                && matches!(o, Outcome::Err | Outcome::Disconnect(_))
             {
                 // mark as not owing a response
                 r.answered = u32::MAX;
@@ -592,9 +589,20 @@ pub fn check_c04(ix: &Ix<'_>, v: &mut Vec<Violation>) {
             continue;
         }
         let pid = e.pkt.pid();
-        let Some(r) = reqs.iter_mut().find(|r| r.kind == name && r.pid == pid && r.answered == 0) else {
+        // which kind of ack answers a publish is C03's business; for ordering a PUBACK written for a
+        // QoS 2 publish (or a PUBREC for a QoS 1 one) still is "the response to that request"
+        let alt = match name {
+            "PUBACK" => "PUBREC",
+            "PUBREC" => "PUBACK",
+            n => n,
+        };
+        let pos = reqs
+            .iter()
+            .position(|r| r.kind == name && r.pid == pid && r.answered == 0)
+            .or_else(|| reqs.iter().position(|r| r.kind == alt && r.pid == pid && r.answered == 0));
+        let Some(r) = pos.map(|i| &mut reqs[i]) else {
             // a second response for an already answered request, or a response to nothing
-            if reqs.iter().any(|r| r.kind == name && r.pid == pid) {
+            if reqs.iter().any(|r| (r.kind == name || r.kind == alt) && r.pid == pid) {
                 viol(v, "C04", format!("C04/duplicate-response/{role}/{name}"), format!("{} written twice", e.pkt.brief()), e.seq);
             } else {
                 viol(v, "C04", format!("C04/response-to-nothing/{role}/{name}"), format!("{} answers no request", e.pkt.brief()), e.seq);
@@ -638,6 +646,370 @@ pub fn probe_c04(ix: &Ix<'_>) -> bool {
     false
 }
 
+
+// ------------------------------------------------------------------------------------------
+// outbound oracles
+
+fn op_of_topic(t: &str) -> Option<(usize, usize)> {
+    // "s{sender}/o{op}" or "s{sender}/o{op}/f{i}"
+    let mut it = t.split('/');
+    let s = it.next()?.strip_prefix('s')?.parse().ok()?;
+    let o = it.next()?.strip_prefix('o')?.parse().ok()?;
+    Some((s, o))
+}
+
+/// (sender, op) of a packet the endpoint wrote on behalf of a sink operation
+fn op_of_packet(p: &Pkt) -> Option<(usize, usize)> {
+    match p {
+        Pkt::Publish(x) => op_of_topic(&x.topic),
+        Pkt::Subscribe(x) => x.filters.first().and_then(|f| op_of_topic(&f.0)),
+        Pkt::Unsubscribe(x) => x.filters.first().and_then(|f| op_of_topic(f)),
+        _ => None,
+    }
+}
+
+pub fn check_c05(ix: &Ix<'_>, v: &mut Vec<Violation>) {
+    let role = ix.role();
+    let limit = crate::families::send_limit(&ix.out.plan);
+    let mut w = 0u32; // QoS1/2 PUBLISH written by the endpoint
+    let mut a = 0u32; // final acknowledgements the peer has sent (the endpoint cannot have processed more)
+    let mut max = 0u32;
+    for e in &ix.out.hist {
+        match &e.ev {
+            Ev::EpPacket { conn: 0, pkt: Pkt::Publish(p), .. } if p.qos > 0 => {
+                w += 1;
+                let win = w - a.min(w);
+                if win > max {
+                    max = win;
+                }
+                if win > limit {
+                    viol(
+                        v,
+                        "C05",
+                        format!("C05/window-exceeded/{role}/limit{limit}"),
+                        format!("{win} QoS1/2 publishes written and not finally acknowledged (limit {limit}) when PUBLISH #{:?} {:?} was written", p.pid, p.topic),
+                        e.seq,
+                    );
+                    return;
+                }
+            }
+            Ev::PeerSend { conn: 0, pkt: Some(Pkt::PubAck(_) | Pkt::PubComp(_)), corrupt: None, .. } => a += 1,
+            _ => {}
+        }
+    }
+}
+
+pub fn probe_c05(ix: &Ix<'_>) -> bool {
+    // the window was full at some point and a sender was parked (an op started while window full)
+    let limit = crate::families::send_limit(&ix.out.plan);
+    ix.out.peers.first().is_some_and(|p| p.max_window >= limit) && ix.ops.len() as u32 > limit
+}
+
+pub fn check_c13(ix: &Ix<'_>, v: &mut Vec<Violation>) {
+    let role = ix.role();
+    if !ix.healthy_settled(0) || !ix.stops.is_empty() {
+        return;
+    }
+    // precondition of the statement: fewer packets are outstanding than the send limit. An exchange is
+    // outstanding from the moment its packet is written until the peer has sent its final ack; an
+    // exactly-once exchange whose receipt was never released (cancelled send) stays outstanding.
+    let limit = crate::families::send_limit(&ix.out.plan) as i64;
+    let mut outstanding: i64 = 0;
+    for e in &ix.out.hist {
+        match &e.ev {
+            Ev::EpPacket { conn: 0, pkt, .. } => match pkt {
+                Pkt::Publish(p) if p.qos > 0 => outstanding += 1,
+                Pkt::Subscribe(_) | Pkt::Unsubscribe(_) => outstanding += 1,
+                _ => {}
+            },
+            Ev::PeerSend { conn: 0, pkt: Some(p), .. } => match p {
+                Pkt::PubAck(_) | Pkt::PubComp(_) | Pkt::SubAck(_) | Pkt::UnsubAck(_) => outstanding -= 1,
+                Pkt::PubRec(a) if a.code >= 0x80 => outstanding -= 1,
+                _ => {}
+            },
+            _ => {}
+        }
+    }
+    if outstanding >= limit {
+        return;
+    }
+    // the connection is alive, back-pressure is off, the peer has acknowledged everything:
+    // nothing may still be waiting
+    for o in &ix.ops {
+        if o.done.is_none() {
+            let kind = o.brief.split([' ', '{', '(']).next().unwrap_or("");
+            viol(
+                v,
+                "C13",
+                format!("C13/blocked-forever/{role}/{kind}"),
+                format!("sender {} op {} ({}) started at step {} never completed although the peer acknowledged everything and the window has room", o.sender, o.op, o.brief, o.start),
+                ix.last_seq,
+            );
+        }
+    }
+    for (i, s) in ix.out.senders.iter().enumerate() {
+        if !s.finished && !ix.ops.iter().any(|o| o.sender == i && o.done.is_none()) {
+            viol(v, "HARNESS", "harness/sender-not-finished".into(), format!("sender {i} did not finish its script ({}/{})", s.next_op, s.n_ops), ix.last_seq);
+        }
+    }
+}
+
+pub fn check_c06(ix: &Ix<'_>, v: &mut Vec<Violation>) {
+    let role = ix.role();
+    let v5 = ix.ver == Ver::V5;
+    let deviated = ix.fault("ack_deviation") > 0;
+    // (2) identifiers of simultaneously outstanding sends are non-zero and pairwise distinct
+    let mut outstanding: Vec<u16> = Vec::new();
+    for e in &ix.out.hist {
+        match &e.ev {
+            Ev::EpPacket { conn: 0, pkt, .. } => {
+                let pid = match pkt {
+                    Pkt::Publish(p) if p.qos > 0 => p.pid,
+                    Pkt::Subscribe(x) => Some(x.pid),
+                    Pkt::Unsubscribe(x) => Some(x.pid),
+                    _ => None,
+                };
+                if let Some(pid) = pid {
+                    if pid == 0 {
+                        viol(v, "C06", format!("C06/zero-id/{role}"), format!("{} written with packet id 0", pkt.brief()), e.seq);
+                    }
+                    if outstanding.contains(&pid) {
+                        viol(v, "C06", format!("C06/id-reused-while-outstanding/{role}/{}", pkt.name()), format!("{} reuses id {pid} before the peer acknowledged the earlier exchange", pkt.brief()), e.seq);
+                    } else {
+                        outstanding.push(pid);
+                    }
+                }
+            }
+            // the exchange ends (at the earliest) when the peer sends the final ack
+            Ev::PeerSend { conn: 0, pkt: Some(p), .. } => {
+                let fin = match p {
+                    Pkt::PubAck(a) | Pkt::PubComp(a) => Some(a.pid),
+                    Pkt::PubRec(a) if a.code >= 0x80 => Some(a.pid),
+                    Pkt::SubAck(x) | Pkt::UnsubAck(x) => Some(x.pid),
+                    _ => None,
+                };
+                if let Some(pid) = fin {
+                    outstanding.retain(|x| *x != pid);
+                }
+            }
+            _ => {}
+        }
+    }
+
+    // (1) a send returns Ok only after the peer sent the matching ack, and returns its contents
+    for o in &ix.ops {
+        let Some((done_seq, OpResult::Ok(info))) = &o.done else { continue };
+        let want = match info.what {
+            "puback" => "PUBACK",
+            "pubrec" => "PUBREC",
+            "pubcomp" => "PUBCOMP",
+            "suback" => "SUBACK",
+            "unsuback" => "UNSUBACK",
+            _ => continue,
+        };
+        // the packet this op put on the wire; Release ops belong to the preceding PubQ2
+        let src_op = if info.what == "pubcomp" { o.op.saturating_sub(1) } else { o.op };
+        let wire = ix.eps.iter().find(|e| e.conn == 0 && op_of_packet(&e.pkt) == Some((o.sender, src_op)));
+        let Some(wire) = wire else {
+            viol(v, "C06", format!("C06/ok-without-packet/{role}/{want}"), format!("sender {} op {} returned Ok({}) but its packet never reached the wire", o.sender, o.op, info.what), *done_seq);
+            continue;
+        };
+        let pid = wire.pkt.pid().unwrap_or(0);
+        let ack = ix.sent.iter().find(|s| {
+            s.conn == 0 && s.seq > wire.seq && s.seq < *done_seq && matches!(&s.pkt, Some(p) if p.name() == want && p.pid() == Some(pid))
+        });
+        let Some(ack) = ack else {
+            viol(
+                v,
+                "C06",
+                format!("C06/ok-without-matching-ack/{role}/{want}{}", if deviated { "/after-deviation" } else { "" }),
+                format!("sender {} op {} (id {pid}) returned Ok({}) but the peer sent no {want} #{pid} between the send and the completion", o.sender, o.op, info.what),
+                *done_seq,
+            );
+            continue;
+        };
+        if v5 {
+            if info.pid != pid {
+                viol(v, "C06", format!("C06/wrong-ack-returned/{role}/{want}/id"), format!("op with id {pid} returned the ack of id {}", info.pid), *done_seq);
+            }
+            match &ack.pkt {
+                Some(Pkt::PubAck(a) | Pkt::PubRec(a)) if a.code != info.code => {
+                    viol(v, "C06", format!("C06/wrong-ack-returned/{role}/{want}/code"), format!("{want} #{pid}: peer sent code 0x{:02x}, application got 0x{:02x}", a.code, info.code), *done_seq);
+                }
+                Some(Pkt::SubAck(x) | Pkt::UnsubAck(x)) if x.codes != info.codes => {
+                    viol(v, "C06", format!("C06/wrong-ack-returned/{role}/{want}/codes"), format!("{want} #{pid}: peer sent {:02x?}, application got {:02x?}", x.codes, info.codes), *done_seq);
+                }
+                _ => {}
+            }
+        } else if let Some(Pkt::SubAck(x)) = &ack.pkt
+            && want == "SUBACK"
+            && x.codes != info.codes
+        {
+            viol(v, "C06", format!("C06/wrong-ack-returned/{role}/{want}/codes"), format!("SUBACK #{pid}: peer sent {:02x?}, application got {:02x?}", x.codes, info.codes), *done_seq);
+        }
+    }
+
+    if deviated {
+        // (3) the connection ends with a protocol error
+        if ix.out.plan.ending != Ending::Stop && !ix.out.budget_hit && ix.out.panic.is_none() {
+            let dev_seq = ix.out.hist.iter().find(|e| matches!(e.ev, Ev::Fault { kind: "ack_deviation", .. })).map_or(0, |e| e.seq);
+            let delivered = ix.sent.iter().any(|s| s.corrupt && s.seq >= dev_seq && s.delivered.is_some());
+            if delivered {
+                match ix.stops.first() {
+                    Some((_, _, StopClass::Protocol(_))) => {}
+                    Some((_, _, StopClass::PeerGone(_))) if ix.stops[0].0 < dev_seq => {}
+                    Some((sq, _, other)) => {
+                        // another cause may have ended the connection first (application close)
+                        if !ix.ops.iter().any(|o| o.brief.contains("Close")) {
+                            viol(v, "C06", format!("C06/deviation-wrong-stop/{role}"), format!("deviating ack was delivered, Stop reason is {other:?} instead of a protocol error"), *sq);
+                        }
+                    }
+                    None => {
+                        let what = ix.out.hist.iter().find_map(|e| match &e.ev {
+                            Ev::Note { what } if what.starts_with("deviation") => Some(what.clone()),
+                            _ => None,
+                        });
+                        let kind = what.as_deref().and_then(|w| w.split([' ', ':']).nth(1)).unwrap_or("?").to_string();
+                        viol(v, "C06", format!("C06/deviation-accepted/{role}/{kind}"), format!("{} was delivered and the connection was not ended", what.unwrap_or_default()), ix.last_seq);
+                    }
+                }
+            }
+        }
+    } else if ix.healthy_settled(0) {
+        // (4) a correct peer: every send whose packet reached the wire completes Ok, no Stop
+        if let Some((sq, _, cls)) = ix.stops.first()
+            && !ix.ops.iter().any(|o| o.brief.contains("Close"))
+        {
+            viol(v, "C06", format!("C06/correct-peer-connection-ended/{role}"), format!("the peer acknowledged everything correctly and in order, yet the connection ended: {cls:?}"), *sq);
+        }
+        if ix.stops.is_empty() {
+            for o in &ix.ops {
+                if let Some((sq, OpResult::Err(e))) = &o.done {
+                    let on_wire = ix.eps.iter().any(|x| x.conn == 0 && op_of_packet(&x.pkt) == Some((o.sender, o.op)));
+                    if on_wire && !o.cancelled {
+                        viol(v, "C06", format!("C06/correct-peer-send-failed/{role}"), format!("sender {} op {} ({}) reached the wire, was acknowledged correctly, but returned {e}", o.sender, o.op, o.brief), *sq);
+                    }
+                }
+            }
+        }
+    }
+}
+
+pub fn check_c14(ix: &Ix<'_>, v: &mut Vec<Violation>) {
+    let role = ix.role();
+    let v5 = ix.ver == Ver::V5;
+    let healthy = ix.healthy_settled(0) && ix.stops.is_empty();
+    // every QoS2 op and its release
+    for o in ix.ops.iter().filter(|o| o.brief.starts_with("PubQ2")) {
+        let wire = ix.eps.iter().find(|e| e.conn == 0 && matches!(&e.pkt, Pkt::Publish(p) if op_of_topic(&p.topic) == Some((o.sender, o.op))));
+        let Some(wire) = wire else { continue };
+        let pid = wire.pkt.pid().unwrap_or(0);
+        if let Some((sq, OpResult::Ok(info))) = &o.done {
+            if v5 && info.pid != pid {
+                viol(v, "C14", format!("C14/wrong-receipt/{role}"), format!("exactly-once send with id {pid} resolved with the PUBREC of id {}", info.pid), *sq);
+            }
+            let rec = ix.sent.iter().find(|s| s.seq < *sq && matches!(&s.pkt, Some(Pkt::PubRec(a)) if a.pid == pid));
+            if rec.is_none() {
+                viol(v, "C14", format!("C14/receipt-without-pubrec/{role}"), format!("exactly-once send #{pid} resolved before the peer sent its PUBREC"), *sq);
+            }
+        }
+        // the release / drop that follows in the same sender
+        let rel = ix.ops.iter().find(|r| r.sender == o.sender && r.op == o.op + 1);
+        let pubrels: Vec<&EpP> = ix.eps.iter().filter(|e| e.conn == 0 && matches!(&e.pkt, Pkt::PubRel(a) if a.pid == pid)).collect();
+        if pubrels.len() > 1 {
+            viol(v, "C14", format!("C14/pubrel-twice/{role}"), format!("{} PUBREL packets written for id {pid}", pubrels.len()), pubrels[1].seq);
+        }
+        if let Some(r) = rel {
+            if let Some(first) = pubrels.first()
+                && first.seq < r.start
+            {
+                viol(v, "C14", format!("C14/pubrel-before-release/{role}"), format!("PUBREL #{pid} written before the application released the receipt"), first.seq);
+            }
+            if let Some((sq, res)) = &r.done {
+                match res {
+                    OpResult::Ok(info) if info.what == "pubcomp" => {
+                        let comp = ix.sent.iter().find(|s| s.seq < *sq && matches!(&s.pkt, Some(Pkt::PubComp(a)) if a.pid == pid));
+                        if comp.is_none() {
+                            viol(v, "C14", format!("C14/release-resolved-without-pubcomp/{role}"), format!("release of #{pid} resolved before the peer sent PUBCOMP #{pid}"), *sq);
+                        }
+                        if pubrels.is_empty() {
+                            viol(v, "C14", format!("C14/release-without-pubrel/{role}"), format!("release of #{pid} resolved but no PUBREL #{pid} was written"), *sq);
+                        }
+                    }
+                    OpResult::Ok(_) => {
+                        // receipt dropped: exactly one PUBREL must (eventually) be written
+                        if healthy && pubrels.is_empty() {
+                            viol(v, "C14", format!("C14/dropped-receipt-no-pubrel/{role}"), format!("receipt of #{pid} was dropped but no PUBREL #{pid} was written"), ix.last_seq);
+                        }
+                    }
+                    OpResult::Err(e) => {
+                        if healthy && !r.cancelled {
+                            let k = e.split(['(', ' ']).next().unwrap_or("err").to_string();
+                            viol(v, "C14", format!("C14/release-failed/{role}/{k}"), format!("release of #{pid} failed with {e} on a healthy connection (another exchange interfered)"), *sq);
+                        }
+                    }
+                    OpResult::Cancelled => {}
+                }
+            } else if healthy {
+                viol(v, "C14", format!("C14/release-never-completed/{role}"), format!("release of #{pid} never completed although PUBCOMP #{pid} was sent"), ix.last_seq);
+            }
+        }
+    }
+    // PUBRELs for ids nobody sent as QoS2
+    for e in ix.eps.iter().filter(|e| e.conn == 0) {
+        if let Pkt::PubRel(a) = &e.pkt {
+            let known = ix.eps.iter().any(|x| x.seq < e.seq && matches!(&x.pkt, Pkt::Publish(p) if p.qos == 2 && p.pid == Some(a.pid)));
+            if !known {
+                viol(v, "C14", format!("C14/pubrel-for-unknown-id/{role}"), format!("PUBREL #{} written but no QoS2 PUBLISH with that id", a.pid), e.seq);
+            }
+        }
+    }
+}
+
+pub fn probe_c14(ix: &Ix<'_>) -> bool {
+    // two exactly-once exchanges overlapped
+    let q2: Vec<&OpRec> = ix.ops.iter().filter(|o| o.brief.starts_with("PubQ2")).collect();
+    q2.iter().enumerate().any(|(i, a)| {
+        q2.iter().skip(i + 1).any(|b| {
+            let a_end = ix.ops.iter().find(|r| r.sender == a.sender && r.op == a.op + 1).and_then(|r| r.done.as_ref().map(|d| d.0)).unwrap_or(u64::MAX);
+            b.sender != a.sender && b.start < a_end
+        })
+    })
+}
+
+/// C08 beyond the always-on parse monitor: attribution of what is on the wire
+pub fn check_c08(ix: &Ix<'_>, v: &mut Vec<Violation>) {
+    let role = ix.role();
+    for e in ix.eps.iter().filter(|e| e.conn == 0) {
+        if let Some((s, o)) = op_of_packet(&e.pkt) {
+            let op = ix.ops.iter().find(|x| x.sender == s && x.op == o);
+            match op {
+                None => viol(v, "C08", format!("C08/unattributable-packet/{role}"), format!("{} on the wire belongs to no started operation", e.pkt.brief()), e.seq),
+                Some(op) => {
+                    // a send that returned an error leaves no bytes behind; errors that arrive after the
+                    // packet was written (disconnect while waiting for the ack) are not "failed sends"
+                    if let Some((_, OpResult::Err(err))) = &op.done {
+                        let local = err.starts_with("Encode(") || err.starts_with("PacketIdInUse") || err.contains("ExpectPayload");
+                        if local && !op.brief.starts_with("Stream") {
+                            viol(v, "C08", format!("C08/failed-send-left-packet/{role}/{}", err.split('(').next().unwrap_or("")), format!("op {} returned {err} but {} was written", op.brief, e.pkt.brief()), e.seq);
+                        }
+                    }
+                    // payload integrity of what was written
+                    if let Pkt::Publish(p) = &e.pkt
+                        && !op.brief.starts_with("Stream")
+                        && !op.brief.starts_with("BadTopic")
+                    {
+                        let tag = crate::app_v5::op_tag(s, o);
+                        if p.payload != crate::world::make_payload(tag, p.payload.len()) {
+                            viol(v, "C08", format!("C08/payload-corrupted-on-wire/{role}"), format!("payload of {} differs from what the application sent", e.pkt.brief()), e.seq);
+                        }
+                    }
+                }
+            }
+        }
+    }
+}
+
 pub fn check_all(out: &RunOut) -> Vec<Violation> {
     let ix = Ix::new(out);
     let mut v = Vec::new();
@@ -650,6 +1022,14 @@ pub fn check_all(out: &RunOut) -> Vec<Violation> {
         "C04" => {
             check_c04(&ix, &mut v);
             check_c03(&ix, &mut v);
+        }
+        "C05" | "C06" | "C13" | "C14" | "C08" => {
+            check_c05(&ix, &mut v);
+            check_c06(&ix, &mut v);
+            check_c13(&ix, &mut v);
+            check_c14(&ix, &mut v);
+            check_c08(&ix, &mut v);
+            check_c04(&ix, &mut v);
         }
         _ => {}
     }
